@@ -76,7 +76,7 @@ def initStateT (s : St) (now : Nat) : St × List Pt :=
       match r.naming with
       | .timestampsDirect =>
         let t := if !s.cfg.append then now else (latestStamp s.dir).getD now
-        (s, if !s.cfg.append then collisionFree s.dir t else .ts t none, 0, t, [])
+        (s, if !s.cfg.append then collisionFree s.dir t else appendTarget s.dir t, 0, t, [])
       | .timestamps =>
         let curN : FName := ⟨some .cur, false⟩
         if !s.cfg.append then
